@@ -19,6 +19,8 @@ import (
 	"github.com/massnetorg/mass-core/wire"
 	"massnet.org/mass-wallet/api"
 	"massnet.org/mass-wallet/config"
+	"massnet.org/mass-wallet/masswallet"
+	"vh/enum"
 	"vh/env"
 	"vh/proto"
 	"vh/world"
@@ -35,7 +37,14 @@ var States = map[string][]string{
 	"removing":        {"x.ab", "d", "k.rm"},
 	"after-reorg":     {"x.pa", "d", "r.1.E", "d"},
 	"staking-binding": {"x.bo", "d", "x.st", "d", "x.bn", "d", "x.e", "d"},
+	// between two rescan batches of an import (one height per batch): the restored wallet is
+	// still importing but its first credit is already recorded
+	"importing-credit-recorded": {"b.1", "x.pc0", "d", "x.e", "d", "i.m0", "i.s", "i.s", "i.s", "i.s"},
 }
+
+// blockProbes are the block contents delivered to the follower in every state (one fresh
+// replay each): whatever the wallet state, a block the node can deliver must be processed.
+var blockProbes = []string{"e", "ca", "pa", "sa", "sj", "ch", "ab", "a2b", "st", "sw", "bo", "bn", "bw", "nd", "pc0", "pc1", "sc", "c2a", "cp", "cc"}
 
 // DeepStates are added in the thorough tier.
 var DeepStates = map[string][]string{
@@ -131,7 +140,9 @@ func (c *ctxT) domain(name string, t reflect.Type) []reflect.Value {
 		case strings.Contains(n, "flags"):
 			return vs("ALL", "NONE", "SINGLE", "ALL|ANYONECANPAY", "NONE|ANYONECANPAY", "SINGLE|ANYONECANPAY", "BOGUS", "")
 		case strings.Contains(n, "mnemonic"):
-			return vs(world.MnemonicC, A.Mnemonic, "abandon abandon", "", long)
+			// freshMnemonic is replaced at call time by a valid sentence never used before, so that
+			// EVERY combination of the other parameters meets a wallet that can still be imported
+			return vs(freshMnemonic, world.MnemonicC, A.Mnemonic, "abandon abandon", "", long)
 		case strings.Contains(n, "keystore"):
 			return vs(c.export, "{}", "", "notjson", c.export[:len(c.export)/2])
 		case strings.Contains(n, "payload"):
@@ -151,7 +162,9 @@ func (c *ctxT) domain(name string, t reflect.Type) []reflect.Value {
 	case reflect.Uint32, reflect.Uint64:
 		switch {
 		case strings.Contains(n, "vout") || strings.Contains(n, "index"):
-			return vs(0, 1, 5, 1<<32-1)
+			// 21, 25: just beyond the default address gap limit (20) of a wallet without history
+			// (1<<20)+1, 1<<32-1: beyond what an import accepts as an index hint - must be refused at once
+			return vs(0, 1, 5, 21, 25, (1<<20)+1, 1<<32-1)
 		case strings.Contains(n, "height"):
 			return vs(0, 1, c.tip, c.tip+1, uint64(1<<32-1))
 		case strings.Contains(n, "frozen"):
@@ -303,7 +316,8 @@ func New(o Opts) *Model {
 // Run: hist = [stateName, methodName].
 func (m *Model) Run(hist []string) *proto.Result {
 	res := &proto.Result{Info: map[string]int{}}
-	if len(hist) == 0 { // root: list (state, method) pairs as successors
+	masswallet.VerifImportBatch = 1000 // a state may change it (event b.<n>); every replay starts from the default
+	if len(hist) == 0 {                // root: list (state, method) pairs as successors
 		res.Key = "root"
 		var names []string
 		for s := range m.states() {
@@ -414,6 +428,42 @@ func (m *Model) Run(hist []string) *proto.Result {
 			res.Succ = append(res.Succ, mt.Name)
 		}
 		res.Succ = append(res.Succ, "#follower-malformed")
+		for _, t := range blockProbes {
+			res.Succ = append(res.Succ, "#block:"+t)
+		}
+		return res
+	}
+	if strings.HasPrefix(hist[1], "#block:") {
+		// chain-side probe: one block of the given content (if the simulator can build it in
+		// this state), then one more empty tip
+		t := hist[1][len("#block:"):]
+		res.Key = hist[0] + "/" + hist[1]
+		res.Outcome = res.Key + ":not-enabled"
+		res.Quiescent = true
+		if ok, err := w.Apply("x." + t); err != nil {
+			res.Err = "block probe " + t + ": " + err.Error()
+			return res
+		} else if ok {
+			res.Outcome = res.Key + ":delivered"
+			res.Info["block_probes_delivered"] = 1
+			for len(w.N.Queue) > 0 && len(w.Panics) == 0 {
+				w.Deliver()
+			}
+			if len(w.Panics) == 0 {
+				if ok, err := w.Apply("x.e"); ok && err == nil {
+					w.Deliver()
+					if h, _ := w.I.W.SyncedTo(); h != w.N.Height() && len(w.Panics) == 0 {
+						res.Viol = append(res.Viol, fmt.Sprintf("after a block of content %q in state %q the follower no longer applies a new tip (synced %d, tip %d, errors %v)", t, hist[0], h, w.N.Height(), w.HandlerErrs))
+					}
+				}
+			}
+			for _, p := range w.Panics {
+				res.Viol = append(res.Viol, fmt.Sprintf("block of content %q in state %q: %s", t, hist[0], p))
+			}
+			if f := env.TakeFatals(); len(f) > 0 {
+				res.Viol = append(res.Viol, fmt.Sprintf("block of content %q in state %q: follower ended in a FATAL log exit | %s", t, hist[0], firstLines(f[0].Stack, 14)))
+			}
+		}
 		return res
 	}
 	if hist[1] == "#follower-malformed" {
@@ -430,13 +480,25 @@ func (m *Model) Run(hist []string) *proto.Result {
 	outcomes := map[string]int{}
 	calls := 0
 	var full, used int
+	poisoned := false
 	call := func(req reflect.Value) {
+		if poisoned {
+			// an earlier request panicked inside the wallet: the locks and the write transaction
+			// it held are never released (the real process would be gone) - nothing more can be
+			// asked of this instance
+			return
+		}
 		calls++
+		substituteFresh(req)
+		// API calls queue work for a worker that does not run here: keep the queue empty so that
+		// later calls are not refused as "too many tasks" before they reach their own code
+		defer w.I.W.VerifDrainTasks()
 		func() {
 			defer func() {
 				if e := recover(); e != nil {
 					rj, _ := json.Marshal(req.Interface())
 					res.Viol = append(res.Viol, fmt.Sprintf("%s panicked in state %q on request %s: %v | %s", hist[1], hist[0], rj, e, firstLines(string(debug.Stack()), 14)))
+					poisoned = true
 				}
 			}()
 			outs := sv.Method(meth.Index).Call([]reflect.Value{reflect.ValueOf(context.Background()), req})
@@ -465,6 +527,11 @@ func (m *Model) Run(hist []string) *proto.Result {
 		res.Viol = append(res.Viol[:8], fmt.Sprintf("... %d panicking requests in total", len(res.Viol)))
 	}
 	// follower liveness probe: a new tip must still be applied
+	if poisoned {
+		res.Info["calls"] = calls
+		res.Outcome = fmt.Sprintf("%s/%s:panicked", hist[0], hist[1])
+		return res
+	}
 	if ok, err := w.Apply("x.e"); ok && err == nil {
 		before := len(w.HandlerErrs)
 		w.Deliver()
@@ -480,6 +547,31 @@ func (m *Model) Run(hist []string) *proto.Result {
 	res.Outcome = fmt.Sprintf("%s/%s:%x", hist[0], hist[1], len(ob))
 	res.Detail = outcomes
 	return res
+}
+
+const freshMnemonic = "@fresh-mnemonic@"
+
+var freshCounter uint64
+
+// substituteFresh replaces the freshMnemonic placeholder in string fields of a request.
+func substituteFresh(req reflect.Value) {
+	v := req
+	for v.Kind() == reflect.Ptr {
+		if v.IsNil() {
+			return
+		}
+		v = v.Elem()
+	}
+	if v.Kind() != reflect.Struct {
+		return
+	}
+	for i := 0; i < v.NumField(); i++ {
+		f := v.Field(i)
+		if f.Kind() == reflect.String && f.CanSet() && f.String() == freshMnemonic {
+			freshCounter++
+			f.SetString(enum.FreshMnemonic(freshCounter))
+		}
+	}
 }
 
 func firstLines(s string, n int) string {
